@@ -17,15 +17,84 @@ import (
 	corev1 "k8s.io/api/core/v1"
 	metav1 "k8s.io/apimachinery/pkg/apis/meta/v1"
 	"k8s.io/apimachinery/pkg/types"
+	"k8s.io/client-go/informers"
+	"k8s.io/client-go/kubernetes"
+	kubefake "k8s.io/client-go/kubernetes/fake"
+	k8scache "k8s.io/client-go/tools/cache"
 	fwktype "k8s.io/kube-scheduler/framework"
 	"k8s.io/kubernetes/pkg/scheduler/framework"
 
 	"github.com/koordinator-sh/koordinator/apis/extension"
 	"github.com/koordinator-sh/koordinator/apis/thirdparty/scheduler-plugins/pkg/apis/scheduling/v1alpha1"
+	pgversioned "github.com/koordinator-sh/koordinator/apis/thirdparty/scheduler-plugins/pkg/generated/clientset/versioned"
+	pgfake "github.com/koordinator-sh/koordinator/apis/thirdparty/scheduler-plugins/pkg/generated/clientset/versioned/fake"
+	pgformers "github.com/koordinator-sh/koordinator/apis/thirdparty/scheduler-plugins/pkg/generated/informers/externalversions"
+	koordfake "github.com/koordinator-sh/koordinator/pkg/client/clientset/versioned/fake"
+	koordinatorinformers "github.com/koordinator-sh/koordinator/pkg/client/informers/externalversions"
 	"github.com/koordinator-sh/koordinator/pkg/scheduler/apis/config"
 	"github.com/koordinator-sh/koordinator/pkg/scheduler/frameworkext"
+	frameworkexthelper "github.com/koordinator-sh/koordinator/pkg/scheduler/frameworkext/helper"
 	"github.com/koordinator-sh/koordinator/pkg/scheduler/frameworkext/workloadauditor"
 )
+
+// ---- "wired" stream: the event handlers NewPodGroupManager REGISTERS on its informers ----
+// The informers handed to NewPodGroupManager are capture wrappers (pre-registered in the factories through
+// InformerFor, so `factory.Core().V1().Pods().Informer()` returns them): whatever handler the code registers with
+// AddEventHandler* is recorded, and the harness delivers every informer event of the case to that recorded handler —
+// OnAdd / OnUpdate / OnDelete exactly as client-go's sharedIndexInformer would, deletes also in the shape a re-list
+// produces (cache.DeletedFinalStateUnknown by value around the last known object).  The informers are never started.
+
+type c04CapInformer struct {
+	k8scache.SharedIndexInformer
+	got []k8scache.ResourceEventHandler
+}
+
+func (c *c04CapInformer) AddEventHandler(h k8scache.ResourceEventHandler) (k8scache.ResourceEventHandlerRegistration, error) {
+	c.got = append(c.got, h)
+	return c.SharedIndexInformer.AddEventHandler(h)
+}
+func (c *c04CapInformer) AddEventHandlerWithResyncPeriod(h k8scache.ResourceEventHandler, d time.Duration) (k8scache.ResourceEventHandlerRegistration, error) {
+	c.got = append(c.got, h)
+	return c.SharedIndexInformer.AddEventHandlerWithResyncPeriod(h, d)
+}
+func (c *c04CapInformer) AddEventHandlerWithOptions(h k8scache.ResourceEventHandler, o k8scache.HandlerOptions) (k8scache.ResourceEventHandlerRegistration, error) {
+	c.got = append(c.got, h)
+	return c.SharedIndexInformer.AddEventHandlerWithOptions(h, o)
+}
+
+type c04Wired struct {
+	mgr       *PodGroupManager
+	podH, pgH []k8scache.ResourceEventHandler // in registration order (the code registers one each)
+}
+
+type c04WireClients struct {
+	cs    kubernetes.Interface
+	pgcs  pgversioned.Interface
+	koord *koordfake.Clientset
+}
+
+func c04NewWireClients() *c04WireClients {
+	return &c04WireClients{cs: kubefake.NewSimpleClientset(), pgcs: pgfake.NewSimpleClientset(), koord: koordfake.NewSimpleClientset()}
+}
+
+// c04Wire builds the PodGroupManager the way the plugin's New() does (core.NewPodGroupManager) and returns the
+// handlers it registered on the pod and the PodGroup informer.
+func c04Wire(fh fwktype.Handle, args *config.CoschedulingArgs, cl *c04WireClients) (*c04Wired, error) {
+	frameworkexthelper.ResetRegistrations()
+	idx := k8scache.Indexers{k8scache.NamespaceIndex: k8scache.MetaNamespaceIndexFunc}
+	podCap := &c04CapInformer{SharedIndexInformer: k8scache.NewSharedIndexInformer(&k8scache.ListWatch{}, &corev1.Pod{}, 0, idx)}
+	pgCap := &c04CapInformer{SharedIndexInformer: k8scache.NewSharedIndexInformer(&k8scache.ListWatch{}, &v1alpha1.PodGroup{}, 0, idx)}
+	factory := informers.NewSharedInformerFactory(cl.cs, 0)
+	factory.InformerFor(&corev1.Pod{}, func(kubernetes.Interface, time.Duration) k8scache.SharedIndexInformer { return podCap })
+	pgFactory := pgformers.NewSharedInformerFactory(cl.pgcs, 0)
+	pgFactory.InformerFor(&v1alpha1.PodGroup{}, func(pgversioned.Interface, time.Duration) k8scache.SharedIndexInformer { return pgCap })
+	koordFactory := koordinatorinformers.NewSharedInformerFactory(cl.koord, 0)
+	mgr := NewPodGroupManager(fh, args, cl.pgcs, pgFactory, factory, koordFactory)
+	if len(podCap.got) == 0 || len(pgCap.got) == 0 {
+		return nil, fmt.Errorf("NewPodGroupManager registered %d pod handlers and %d PodGroup handlers on its informers", len(podCap.got), len(pgCap.got))
+	}
+	return &c04Wired{mgr: mgr, podH: podCap.got, pgH: pgCap.got}, nil
+}
 
 // C04 harness.  One case = one history of informer events (pod / PodGroup add, update, delete)
 // and scheduling-cycle calls (Permit, Unreserve, PostBind, AfterPostFilter) on ONE real GangCache +
@@ -282,7 +351,179 @@ type c04PodSt struct {
 	bound   bool // harness view: bound since the last delete (superset of the gang's BoundChildren)
 	flight  int  // 0 none, 1 parked at Permit (framework waiting map), 2 released (bind pending), 3 rejected (unreserve pending)
 	seenNode bool // an informer event of this pod incarnation carried a node name (it can never be empty again)
+	gone    bool // the delete event of the pod was delivered (object or tombstone) and no event / call has named the pod since
 	tainted bool // the pod got a call outside the framework / informer contract (Permit while bound, PostBind without release, node name going back to empty); such a pod is exempt from the two-sets clause (not from member-in-no-set)
+}
+
+// ---- new-gang race stream ----
+// Two informers feed one GangCache, each on a goroutine of its own: the pod informer (onPodAdd) and the PodGroup
+// informer (onPodGroupAdd).  For a brand-new gang the first pod event and the PodGroup event both go through
+// getGangFromCacheByGangId(id, createIfNotExist=true); whichever comes first creates THE Gang object, the other must
+// find it.  One case = a few rounds; in a round the two goroutines walk the same list of fresh gang ids and meet at a
+// spin barrier before every id, so that both lookups of one id start within a fraction of a microsecond (one side is
+// delayed by a random number of spins to sweep the window).  At the barrier that ends the round the oracle demands
+// what holds under EVERY interleaving on the unchanged tree (Lean: getOrCreate_atomic_unique):
+//   * every pod whose add event was delivered is a child of the cached gang and in exactly one of pending / waiting / bound;
+//   * every gang whose PodGroup add event was delivered is cached and initialised with what the PodGroup declares.
+// The model does not follow (no deterministic input): '#' lines only.
+
+type c04RaceStats struct{ cases, rounds, gangs int }
+
+func c04RaceCase(h *vHarness, r *vRand, st *c04RaceStats) {
+	h.Tag("newgang-race")
+	h.Op("# new-gang race: pod informer goroutine vs PodGroup informer goroutine")
+	fh := &c04Handle{waiting: map[int]*c04WP{}}
+	args := &config.CoschedulingArgs{DefaultTimeout: metav1.Duration{Duration: 300 * time.Second},
+		DefaultMatchPolicy: extension.GangMatchPolicyOnceSatisfied}
+	cache := NewGangCache(args, nil, nil, nil, fh)
+	mgr := &PodGroupManager{handle: fh, args: args, cache: cache}
+	type rg struct {
+		id   int
+		cfg  c04Cfg
+		way  int // of its pods: 0 PodGroup label, 1 annotations (the PodGroup object still wins)
+		pg   *v1alpha1.PodGroup
+		pods []*corev1.Pod
+		pids []int
+		skew int // >0: the pod side spins that long after the barrier, <0: the PodGroup side
+	}
+	st.cases++
+	next := 0
+	var all []*rg
+	rounds := r.Range(2, 5)
+	failed := false
+	for round := 0; round < rounds && !failed; round++ {
+		k := r.Range(8, 40)
+		batch := make([]*rg, k)
+		for i := range batch {
+			g := &rg{id: next, cfg: c04Cfg{min: r.Range(1, 3), pol: r.Intn(4), mode: r.Intn(3)}}
+			next++
+			if r.Chance(1, 5) {
+				g.way = 1
+			}
+			g.pg = &v1alpha1.PodGroup{ObjectMeta: metav1.ObjectMeta{Name: fmt.Sprintf("r%d", g.id), Namespace: "ns", Annotations: map[string]string{}},
+				Spec: v1alpha1.PodGroupSpec{MinMember: int32(g.cfg.min)}}
+			g.cfg.annotations(g.pg.Annotations, r)
+			for j, np := 0, r.Range(1, 2); j < np; j++ {
+				pid := g.id*10 + j
+				pod := &corev1.Pod{ObjectMeta: metav1.ObjectMeta{Name: fmt.Sprintf("q%d", pid), Namespace: "ns", UID: types.UID(fmt.Sprintf("uid-q%d", pid)),
+					Labels: map[string]string{}, Annotations: map[string]string{}}}
+				if g.way == 0 {
+					pod.Labels[v1alpha1.PodGroupLabel] = g.pg.Name
+				} else {
+					pod.Annotations[extension.AnnotationGangName] = g.pg.Name
+					pod.Annotations[extension.AnnotationGangMinNum] = strconv.Itoa(g.cfg.min)
+					g.cfg.annotations(pod.Annotations, r)
+				}
+				g.pods = append(g.pods, pod)
+				g.pids = append(g.pids, pid)
+			}
+			g.skew = r.Range(-60, 60)
+			if r.Chance(1, 4) {
+				g.skew = r.Range(-400, 400)
+			}
+			batch[i] = g
+		}
+		arrive := make([]atomic.Int32, k)
+		var panicked atomic.Bool
+		var sink atomic.Int64
+		meet := func(i, skew int) {
+			arrive[i].Add(1)
+			for spins := 0; arrive[i].Load() < 2 && !panicked.Load(); spins++ {
+				if spins > 1<<16 {
+					runtime.Gosched()
+				}
+			}
+			x := int64(0)
+			for j := 0; j < skew; j++ {
+				x += int64(j)
+			}
+			sink.Add(x)
+		}
+		var wg sync.WaitGroup
+		wg.Add(2)
+		go func() { // the pod informer's goroutine
+			defer wg.Done()
+			defer func() {
+				if recover() != nil {
+					panicked.Store(true)
+				}
+			}()
+			for i, g := range batch {
+				meet(i, g.skew)
+				for _, pod := range g.pods {
+					cache.onPodAdd(pod)
+				}
+			}
+		}()
+		go func() { // the PodGroup informer's goroutine
+			defer wg.Done()
+			defer func() {
+				if recover() != nil {
+					panicked.Store(true)
+				}
+			}()
+			for i, g := range batch {
+				meet(i, -g.skew)
+				cache.onPodGroupAdd(g.pg)
+			}
+		}()
+		wg.Wait()
+		st.rounds++
+		st.gangs += k
+		all = append(all, batch...)
+		var cur *rg
+		traced := map[int]bool{}
+		fail := func(fp, format string, a ...interface{}) {
+			if !failed {
+				h.Op("# round %d: %d brand-new gangs; for each, goroutine P calls onPodAdd for its first member(s) while goroutine G calls onPodGroupAdd for its PodGroup (started together)", round, k)
+			}
+			if cur != nil && !traced[cur.id] {
+				traced[cur.id] = true
+				h.Op("# gang r%d: G pgadd %s | P podadd %s (pods carry the gang by %s)", cur.id, cur.cfg.toks(), vIntsI(cur.pids),
+					[]string{"PodGroup label", "annotations"}[cur.way])
+			}
+			failed = true
+			h.Fail(fp, "new-gang race round %d: %s", round, fmt.Sprintf(format, a...))
+		}
+		if panicked.Load() {
+			fail("C04:panic", "an informer handler panicked")
+		}
+		sums := mgr.GetGangSummaries()
+		for _, g := range all {
+			cur = g
+			s, ok := sums["ns/"+g.pg.Name]
+			if !ok {
+				fail("C04:member-in-no-set", "gang r%d got its PodGroup add and %d pod adds (racing informer goroutines) but is not in the cache", g.id, len(g.pods))
+				continue
+			}
+			for j, pod := range g.pods {
+				key := "ns/" + pod.Name
+				cnt := vB(s.PendingChildren.Has(key)) + vB(s.WaitingForBindChildren.Has(key)) + vB(s.BoundChildren.Has(key))
+				switch {
+				case cnt == 0 || !s.Children.Has(key):
+					fail("C04:member-in-no-set", "pod %d of new gang r%d was added while the gang's PodGroup add ran on the other informer goroutine: child=%v, in %d of pending/waiting/bound of the cached gang",
+						g.pids[j], g.id, s.Children.Has(key), cnt)
+				case cnt > 1:
+					fail("C04:pod-in-two-sets", "pod %d of new gang r%d is in %d of pending/waiting/bound", g.pids[j], g.id, cnt)
+				}
+			}
+			wantPol, _ := c04PolStr(g.cfg.pol)
+			if g.cfg.pol > 2 {
+				wantPol = extension.GangMatchPolicyOnceSatisfied
+			}
+			wantMode := extension.GangModeStrict
+			if g.cfg.mode == 0 {
+				wantMode = extension.GangModeNonStrict
+			}
+			if !s.HasGangInit || s.MinRequiredNumber != g.cfg.min || s.GangMatchPolicy != wantPol || s.Mode != wantMode || s.GangFrom != GangFromPodGroupCrd {
+				fail("C04:gang-not-initialised-by-podgroup", "new gang r%d: its PodGroup (min %d, policy %q, mode %q) was added while its first pod was added on the other informer goroutine, "+
+					"but the cached gang has init=%v min=%d policy=%q mode=%q from=%q", g.id, g.cfg.min, wantPol, wantMode, s.HasGangInit, s.MinRequiredNumber, s.GangMatchPolicy, s.Mode, s.GangFrom)
+			}
+		}
+	}
+	if !failed {
+		h.Nontrivial()
+	}
 }
 
 func TestVerifC04(t *testing.T) {
@@ -326,14 +567,49 @@ func TestVerifC04(t *testing.T) {
 	if vEnvInt("VERIF_C04_NOEXH", 0) != 0 {
 		nShp = 0
 	}
-	for idx := 0; idx < n+nExh+nConc+nShp; idx++ {
+	// wired stream (the next nWired cases): the system under test is built by the real NewPodGroupManager and every
+	// informer event goes to the handler it REGISTERED on the (captured) pod / PodGroup informer; deletes arrive as the
+	// object, as a re-list tombstone (cache.DeletedFinalStateUnknown by value) or in a shape onPodDelete ignores.
+	nWired := n / 5
+	if v := vEnvInt("VERIF_C04_NWIRED", -1); v >= 0 {
+		nWired = v
+	}
+	var wireClients *c04WireClients
+	// new-gang race stream (the last nRace cases): the pod informer goroutine and the PodGroup informer goroutine
+	// deliver the FIRST events of many brand-new gangs at the same time; see c04RaceCase.
+	nRace := n / 25
+	if v := vEnvInt("VERIF_C04_NRACE", -1); v >= 0 {
+		nRace = v
+	}
+	raceStats := &c04RaceStats{}
+	// wired exhaustive stream (the very last cases): the exhaustive stream once more for the strict only-waiting and
+	// waiting-and-running configurations, on a manager built by NewPodGroupManager, every event through the registered
+	// handlers and every delete as a re-list tombstone.
+	wexhCfgs := [][2]int{{0, 1}, {1, 1}}
+	nWexh := exhPer * len(wexhCfgs)
+	if vEnvInt("VERIF_C04_NOEXH", 0) != 0 {
+		nWexh = 0
+	}
+	wexhBase := n + nExh + nConc + nShp + nWired + nRace
+	for idx := 0; idx < wexhBase+nWexh; idx++ {
 		r := h.Begin(idx)
 		if r == nil {
 			continue
 		}
 		exh := idx >= n && idx < n+nExh
 		conc := idx >= n+nExh && idx < n+nExh+nConc
-		shp := idx >= n+nExh+nConc
+		shp := idx >= n+nExh+nConc && idx < n+nExh+nConc+nShp
+		wired := idx >= n+nExh+nConc+nShp && idx < n+nExh+nConc+nShp+nWired
+		if idx >= n+nExh+nConc+nShp+nWired && idx < wexhBase {
+			c04RaceCase(h, r, raceStats)
+			h.End()
+			continue
+		}
+		wexh := idx >= wexhBase
+		exhIdx, exhC := idx-n, exhCfgs
+		if wexh {
+			exh, wired, exhIdx, exhC = true, true, idx-wexhBase, wexhCfgs
+		}
 		// ---------- the case's universe ----------
 		nG := r.Range(1, 3)
 		if exh || shp {
@@ -420,13 +696,16 @@ func TestVerifC04(t *testing.T) {
 			}
 		}
 		if exh {
-			ec := exhCfgs[(idx-n)/exhPer]
+			ec := exhC[exhIdx/exhPer]
 			for g := 0; g < 2; g++ {
 				groupOf[g], ways[g] = []int{0, 1}, 0
 				cfgs[g] = c04Cfg{min: 1, pol: ec[0], mode: ec[1], group: []int{0, 1}, gshape: 4}
 			}
 			pods = []*c04PodSt{{id: 0, g: 0}, {id: 10, g: 1}}
 			h.Tag("exhaustive")
+			if wexh {
+				h.Tag("exhaustive:wired, deletes as tombstones")
+			}
 		}
 		if shp {
 			code := idx - (n + nExh + nConc)
@@ -463,6 +742,75 @@ func TestVerifC04(t *testing.T) {
 			DefaultMatchPolicy: extension.GangMatchPolicyOnceSatisfied}
 		cache := NewGangCache(args, nil, nil, nil, fh)
 		mgr := &PodGroupManager{handle: fh, args: args, cache: cache}
+		// informer event delivery: straight into the GangCache methods, or (wired stream) into the registered handlers
+		evPodAdd := func(pod *corev1.Pod) { cache.onPodAdd(pod) }
+		evPodUpd := func(o, nw *corev1.Pod) { cache.onPodUpdate(o, nw) }
+		evPodDel := func(obj interface{}) { cache.onPodDelete(obj) }
+		evPGAdd := func(pg *v1alpha1.PodGroup) { cache.onPodGroupAdd(pg) }
+		evPGUpd := func(o, nw *v1alpha1.PodGroup) { cache.onPodGroupUpdate(o, nw) }
+		evPGDel := func(obj interface{}) { cache.onPodGroupDelete(obj) }
+		if wired {
+			h.Tag("wired")
+			if wireClients == nil {
+				wireClients = c04NewWireClients()
+			}
+			w, err := c04Wire(fh, args, wireClients)
+			if err != nil {
+				h.Op("# wired fixture")
+				h.Fail("C04:no-informer-handler-registered", "%v", err)
+				h.End()
+				continue
+			}
+			mgr, cache = w.mgr, w.mgr.cache
+			evPodAdd = func(pod *corev1.Pod) {
+				for _, eh := range w.podH {
+					eh.OnAdd(pod, false)
+				}
+			}
+			evPodUpd = func(o, nw *corev1.Pod) {
+				for _, eh := range w.podH {
+					eh.OnUpdate(o, nw)
+				}
+			}
+			evPodDel = func(obj interface{}) {
+				for _, eh := range w.podH {
+					eh.OnDelete(obj)
+				}
+			}
+			evPGAdd = func(pg *v1alpha1.PodGroup) {
+				for _, eh := range w.pgH {
+					eh.OnAdd(pg, false)
+				}
+			}
+			evPGUpd = func(o, nw *v1alpha1.PodGroup) {
+				for _, eh := range w.pgH {
+					eh.OnUpdate(o, nw)
+				}
+			}
+			evPGDel = func(obj interface{}) {
+				for _, eh := range w.pgH {
+					eh.OnDelete(obj)
+				}
+			}
+		}
+		// gone(p): the delete event of pod p was delivered (in a shape onPodDelete understands) and nothing has named p since
+		gone := func(p int) bool {
+			for _, x := range pods {
+				if x.id == p {
+					return x.gone
+				}
+			}
+			return false
+		}
+		live := func(xs []int) int { // members the harness has not seen deleted
+			k := 0
+			for _, q := range xs {
+				if !gone(q) {
+					k++
+				}
+			}
+			return k
+		}
 
 		// ---------- harness-side bookkeeping for the oracle ----------
 		everBound := make([]bool, nG) // some pod of the gang was bound at some time ("group once satisfied")
@@ -570,10 +918,11 @@ func TestVerifC04(t *testing.T) {
 					case d == nil:
 						h.Fail("C04:released-while-group-unsatisfied", "pod %d released but gang %d of its declared group has no valid declaration (not initialised)", q, x)
 					default:
-						// the sets are the cache's state; minimum, policy and group are what was DECLARED
-						cnt := len(s.wa)
+						// the sets are the cache's state (minus pods whose delete event the harness has delivered: a pod that is
+						// gone holds nothing); minimum, policy and group are what was DECLARED
+						cnt := live(s.wa)
 						if d.pol == 1 {
-							cnt += len(s.bo)
+							cnt += live(s.bo)
 						}
 						// under the once-satisfied policy a group that was satisfied before is no longer constrained
 						onceOK := d.pol == 2 && (groupSatisfied(gq) || groupSatisfied(x))
@@ -738,9 +1087,9 @@ func TestVerifC04(t *testing.T) {
 			h.Op("%s %d %s", kindS, g, c.toks())
 			pan := h.Guard(func() {
 				if update {
-					cache.onPodGroupUpdate(old, pg)
+					evPGUpd(old, pg)
 				} else {
-					cache.onPodGroupAdd(pg)
+					evPGAdd(pg)
 				}
 			})
 			pgExists[g] = pgExists[g] || !update
@@ -751,11 +1100,44 @@ func TestVerifC04(t *testing.T) {
 			h.Tag("op:" + kindS)
 			finish(0, nil, 9, fwB, pan)
 		}
+		doPGDel := func(g int) {
+			fwB := begin()
+			pg := c04PG(g, cfgs[g], r)
+			var obj interface{} = pg
+			shape := 0
+			if wired {
+				switch v := r.Intn(20); {
+				case v < 11:
+					shape = 1
+					obj = k8scache.DeletedFinalStateUnknown{Key: "ns/" + pg.Name, Obj: pg}
+				case v < 13:
+					shape = 2
+					if r.Bool() {
+						obj = &k8scache.DeletedFinalStateUnknown{Key: "ns/" + pg.Name, Obj: pg}
+					} else {
+						obj = k8scache.DeletedFinalStateUnknown{Key: "ns/" + pg.Name, Obj: &corev1.Pod{}}
+					}
+				}
+				h.Op("pgdel %d %d", g, shape)
+				h.Tag(fmt.Sprintf("pgdel:shape=%d", shape))
+			} else {
+				h.Op("pgdel %d", g)
+			}
+			pan := h.Guard(func() { evPGDel(obj) })
+			if shape != 2 {
+				pgExists[g] = false
+				lastPG[g] = nil
+				decl[g] = nil // the PodGroup is gone: the gang declares nothing until an object declares it again
+			}
+			h.Tag("op:pgdel")
+			finish(0, nil, 9, fwB, pan)
+		}
 		doPodEvt := func(ps *c04PodSt, update bool, node bool, term bool) {
 			pod, tail := mkPod(ps, nodeOf(node))
 			if term {
 				pod.Status.Phase = []corev1.PodPhase{corev1.PodSucceeded, corev1.PodFailed}[r.Intn(2)]
 			}
+			ps.gone = false
 			if !term && !node && ps.seenNode {
 				ps.tainted = true // an informer never shows a node name and then an empty one for the same pod
 				h.Tag("out-of-order:node-name-unset")
@@ -768,9 +1150,9 @@ func TestVerifC04(t *testing.T) {
 			}
 			pan := h.Guard(func() {
 				if update {
-					cache.onPodUpdate(pod, pod)
+					evPodUpd(pod, pod)
 				} else {
-					cache.onPodAdd(pod)
+					evPodAdd(pod)
 				}
 			})
 			if !term && ways[ps.g] != 0 && decl[ps.g] == nil && mkMinOK == 1 {
@@ -793,9 +1175,43 @@ func TestVerifC04(t *testing.T) {
 		doPodDel := func(ps *c04PodSt) {
 			pod, _ := mkPod(ps, nodeOf(ps.bound))
 			fwB := begin()
-			h.Op("poddel %d %d", ps.id, ps.g)
-			pan := h.Guard(func() { cache.onPodDelete(pod) })
-			ps.added, ps.bound, ps.tainted, ps.seenNode = false, false, false, false
+			// what the informer hands to OnDelete: 0 the object, 1 a re-list tombstone (DeletedFinalStateUnknown by value)
+			// around the last known object, 2 a shape onPodDelete does not understand (ignored, the pod stays)
+			var obj interface{} = pod
+			shape := 0
+			if wired {
+				v := 0 // wired exhaustive stream: always the tombstone
+				if !wexh {
+					v = r.Intn(20)
+				}
+				switch {
+				case v < 11:
+					shape = 1
+					obj = k8scache.DeletedFinalStateUnknown{Key: "ns/" + pod.Name, Obj: pod}
+				case v < 13:
+					shape = 2
+					switch r.Intn(3) {
+					case 0:
+						obj = &k8scache.DeletedFinalStateUnknown{Key: "ns/" + pod.Name, Obj: pod}
+					case 1:
+						obj = k8scache.DeletedFinalStateUnknown{Key: "ns/" + pod.Name, Obj: c04PG(ps.g, cfgs[ps.g], r)}
+					default:
+						obj = k8scache.DeletedFinalStateUnknown{Key: "ns/" + pod.Name, Obj: nil}
+					}
+				}
+				h.Op("poddel %d %d %d", ps.id, ps.g, shape)
+				h.Tag(fmt.Sprintf("poddel:shape=%d", shape))
+				if sp, ok := prev[ps.g]; ok && (c04Has(sp.wa, ps.id) || c04Has(sp.bo, ps.id)) {
+					h.Tag(fmt.Sprintf("poddel:of a member that holds resources, shape=%d", shape))
+				}
+			} else {
+				h.Op("poddel %d %d", ps.id, ps.g)
+			}
+			pan := h.Guard(func() { evPodDel(obj) })
+			if shape != 2 {
+				ps.added, ps.bound, ps.tainted, ps.seenNode = false, false, false, false
+				ps.gone = true
+			}
 			// a pod parked at Permit stays in the framework's waiting map until the framework rejects it
 			// (flight stays 1: the "times out" branch issues its Unreserve later)
 			h.Tag("op:poddel")
@@ -803,6 +1219,7 @@ func TestVerifC04(t *testing.T) {
 		}
 		doPermit := func(ps *c04PodSt) {
 			pod, _ := mkPod(ps, "")
+			ps.gone = false
 			if ps.bound {
 				ps.tainted = true
 				h.Tag("contract-breach:permit-on-bound")
@@ -842,6 +1259,7 @@ func TestVerifC04(t *testing.T) {
 		}
 		doUnreserve := func(ps *c04PodSt) {
 			pod, _ := mkPod(ps, "")
+			ps.gone = false
 			fwB := begin()
 			delete(fh.waiting, ps.id) // framework: WaitOnPermit returned / timed out before Unreserve runs
 			h.Op("unres %d %d", ps.id, ps.g)
@@ -855,6 +1273,7 @@ func TestVerifC04(t *testing.T) {
 		}
 		doPostBind := func(ps *c04PodSt) {
 			pod, _ := mkPod(ps, "")
+			ps.gone = false
 			if ps.flight != 2 {
 				ps.tainted = true // the framework calls PostBind only for a pod that left Permit with Success / Allow
 				h.Tag("out-of-order:postbind-without-release")
@@ -878,6 +1297,7 @@ func TestVerifC04(t *testing.T) {
 		}
 		doPostFilter := func(ps *c04PodSt) {
 			pod, _ := mkPod(ps, "")
+			ps.gone = false
 			fwB := begin()
 			h.Op("postfilter %d %d", ps.id, ps.g)
 			pan := h.Guard(func() {
@@ -907,8 +1327,8 @@ func TestVerifC04(t *testing.T) {
 				case 2:
 					mgr.PostBind(ctx, pod, "n1")
 				default:
-					cache.onPodAdd(pod)
-					cache.onPodDelete(pod)
+					evPodAdd(pod)
+					evPodDel(pod)
 				}
 			})
 			h.Tag("op:nogang")
@@ -933,6 +1353,9 @@ func TestVerifC04(t *testing.T) {
 		scripted := r.Chance(1, 2) // half of the histories start with "everything arrives, then members are scheduled"
 		if conc {
 			nOps, scripted = r.Range(0, 8), true
+		}
+		if wired && !scripted {
+			scripted = r.Chance(1, 2)
 		}
 		if shp {
 			nOps, scripted = 0, false
@@ -961,7 +1384,7 @@ func TestVerifC04(t *testing.T) {
 			doPGAdd(1, false)
 			doPodEvt(pods[0], false, false, false)
 			doPodEvt(pods[1], false, false, false)
-			code := (idx - n) % exhPer
+			code := exhIdx % exhPer
 			for i := 0; i < exhLen; i++ {
 				d := code % 14
 				code /= 14
@@ -1002,6 +1425,29 @@ func TestVerifC04(t *testing.T) {
 			}
 		}
 		for step := 0; step < nOps; step++ {
+			if wired && r.Chance(1, 6) {
+				// a member that holds resources (parked at Permit, released, or bound) vanishes: where a lost delete matters
+				ps := pick(func(x *c04PodSt) bool { return x.added && (x.flight == 1 || x.flight == 2 || x.bound) })
+				if ps == nil {
+					ps = pick(func(x *c04PodSt) bool { return x.added })
+				}
+				if ps != nil {
+					doPodDel(ps)
+				}
+				continue
+			}
+			if wired && r.Chance(1, 16) {
+				var have []int
+				for g := 0; g < nG; g++ {
+					if pgExists[g] {
+						have = append(have, g)
+					}
+				}
+				if len(have) > 0 {
+					doPGDel(have[r.Intn(len(have))])
+					continue
+				}
+			}
 			w := r.Intn(100)
 			switch {
 			case w < 8: // PodGroup events
@@ -1010,14 +1456,7 @@ func TestVerifC04(t *testing.T) {
 				case ways[g] == 0 && !pgExists[g]:
 					doPGAdd(g, false)
 				case r.Chance(1, 6):
-					fwB := begin()
-					h.Op("pgdel %d", g)
-					pg := c04PG(g, cfgs[g], r)
-					pan := h.Guard(func() { cache.onPodGroupDelete(pg) })
-					pgExists[g] = false
-					lastPG[g] = nil
-					h.Tag("op:pgdel")
-					finish(0, nil, 9, fwB, pan)
+					doPGDel(g)
 				case r.Chance(1, 8):
 					doPGAdd(g, false) // PodGroup (re-)added, also on an annotation gang
 				default:
@@ -1566,11 +2005,18 @@ func TestVerifC04(t *testing.T) {
 	h.Extra("concurrent_rounds", concRounds)
 	h.Extra("concurrent_rounds_with_overlapping_calls", concOverlaps)
 	h.Extra("concurrent_completed_calls", concCalls)
+	h.Extra("newgang_race_rounds", raceStats.rounds)
+	h.Extra("newgang_race_gangs", raceStats.gangs)
 	h.Close("history of 6-30 (+scripted prefix) informer events and scheduling-cycle calls over 1-3 gangs in 1-3 gang groups, " +
 		"1-4 pods each, 3 match policies x 2 modes (+absent/illegal values), PodGroup / annotation / lightweight-label gangs; " +
 		"non-trivial = at least two members released from Permit or at least one strict-mode group rejection that hit a waiting pod; " +
 		fmt.Sprintf("plus an exhaustive stream: all 14^%d call sequences after a fixed arrival prefix on 2 gangs x 1 pod for %d (policy, mode) pairs; ", exhLen, len(exhCfgs))+
 		fmt.Sprintf("plus %d cases exhausting path x groups-annotation shape x min x policy x mode for one gang (+ a partner gang); ", nShp)+
 		fmt.Sprintf("plus a concurrency stream of %d cases: after a sequential prefix an informer goroutine (pod add / update / delete, repeated) races a scheduling goroutine "+
-			"(Permit / Unreserve / PostBind in protocol order) on the same pods for 6-20 rounds, oracle at every barrier; non-trivial there = a round in which calls of the two goroutines overlapped in time", nConc))
+			"(Permit / Unreserve / PostBind in protocol order) on the same pods for 6-20 rounds, oracle at every barrier; non-trivial there = a round in which calls of the two goroutines overlapped in time; ", nConc)+
+		fmt.Sprintf("plus a wired stream of %d cases: the same histories on a PodGroupManager built by the real NewPodGroupManager, every informer event handed to the handler it registered on the "+
+			"(captured) pod / PodGroup informer, deletes as the object, as a re-list tombstone (DeletedFinalStateUnknown by value) or in a shape the code ignores, members that hold resources deleted more often; ", nWired)+
+		fmt.Sprintf("plus the exhaustive stream once more (%d cases, 2 strict configurations) on a NewPodGroupManager-built manager through the registered handlers with every delete as a tombstone; ", nWexh)+
+		fmt.Sprintf("plus a new-gang race stream of %d cases: the pod informer goroutine (onPodAdd of the first members) and the PodGroup informer goroutine (onPodGroupAdd) meet at a spin barrier "+
+			"before each of 8-40 brand-new gang ids per round, 2-5 rounds, oracle at the barrier (every added pod in exactly one set of the CACHED gang, gang initialised from its PodGroup); non-trivial there = all rounds ran", nRace))
 }
